@@ -115,11 +115,12 @@ fn ids(evs: &[StreamEvent]) -> Vec<String> {
 }
 
 fn c13_stream_search() -> (bool, String) {
+    let max_len = crate::bound(5, 7);
     let mut tried = 0u64;
     let mut found: Option<String> = None;
     for wm in WMS {
         for late in LATES {
-            sequences(5, &mut |s| {
+            sequences(max_len, &mut |s| {
                 tried += 1;
                 let mut st = WatermarkedStream::new(wm.make(), late.make());
                 let head = format!("WatermarkedStream({:?}, {:?}) offered timestamps {:?}", wm, late, s);
@@ -217,14 +218,15 @@ fn c13_stream_search() -> (bool, String) {
             }
         }
     }
-    (false, format!("{} (strategy pair, timestamp sequence of length <= 5 over {:?}) runs: watermark monotone and = max - delay, lateness, destination and statistics as stated after every event", tried, DOM))
+    (false, format!("{} (strategy pair, timestamp sequence of length <= {} over {:?}) runs: watermark monotone and = max - delay, lateness, destination and statistics as stated after every event", tried, max_len, DOM))
 }
 
 fn c13_generator_search() -> (bool, String) {
+    let max_len = crate::bound(5, 8);
     let mut tried = 0u64;
     let mut found: Option<String> = None;
     for wm in WMS {
-        sequences(5, &mut |s| {
+        sequences(max_len, &mut |s| {
             tried += 1;
             let mut g = WatermarkGenerator::new(wm.make());
             let head = format!("WatermarkGenerator({:?}) process_event on timestamps {:?}", wm, s);
@@ -256,16 +258,17 @@ fn c13_generator_search() -> (bool, String) {
             return (true, found.unwrap());
         }
     }
-    (false, format!("{} (strategy, timestamp sequence) runs: watermark monotone, = max - delay (bounded), is_late == (ts < watermark)", tried))
+    (false, format!("{} (strategy, timestamp sequence of length <= {} over {:?}) runs: watermark monotone, = max - delay (bounded), is_late == (ts < watermark)", tried, max_len, DOM))
 }
 
 fn c13_handler_search() -> (bool, String) {
     // (timestamp, watermark) with timestamp < watermark: lateness 1, 3, 4, 5, 10, 100, 101
     const CASES: [(u64, u64); 8] = [(9, 10), (7, 10), (6, 10), (5, 10), (0, 10), (0, 100), (0, 101), (2, 5)];
+    let max_len = crate::bound(3, 6);
     let mut tried = 0u64;
     for late in LATES {
         let n = CASES.len();
-        for len in 1..=3usize {
+        for len in 1..=max_len {
             for code in 0..n.pow(len as u32) {
                 tried += 1;
                 let mut c = code;
@@ -331,7 +334,7 @@ fn c13_handler_search() -> (bool, String) {
             }
         }
     }
-    (false, format!("{} (strategy, sequence of <= 3 late events with lateness 1..101) runs: decision and statistics as stated", tried))
+    (false, format!("{} (strategy, sequence of <= {} late events with lateness 1..101) runs: decision and statistics as stated", tried, max_len))
 }
 
 pub fn witnesses() -> Vec<crate::W> {
